@@ -39,7 +39,14 @@ Menu == <<
         List("li", "a", "j", TRUE, <<Leaf("j", "a", Ty("int8")), Leaf("e2", "a", Ty("empty"))>>)>>),   \* 23
   Leaf("d18", "a", TyDec(18)),                                                        \* 24
   LeafList("lid", "a", TyIdref("a:base-id"), TRUE),                                   \* 25
-  Leaf("sp", "a", TyDigits)                                                           \* 26  string with pattern [0-9]+
+  Leaf("sp", "a", TyDigits),                                                          \* 26  string with pattern [0-9]+
+  \* list keys of the types that have alternative lexical forms
+  List("lk", "a", "k", FALSE, <<Leaf("k", "a", TyIdref("a:base-id")), Leaf("v", "a", Ty("string"))>>),   \* 27
+  List("bk", "b", "k", TRUE, <<Leaf("k", "b", TyIdref("a:base-id")), Leaf("v", "b", Ty("int8"))>>),      \* 28  augment from b
+  List("ld", "a", "k", FALSE, <<Leaf("k", "a", TyDec(3)), Leaf("t", "a", Ty("boolean"))>>),             \* 29
+  List("lt", "a", "k", TRUE, <<Leaf("k", "a", Ty("boolean"))>>),                                        \* 30
+  \* a constraint over the default-decorated tree: unique over a leaf with a default
+  ListU("lq", "a", "k", FALSE, "port", <<Leaf("k", "a", Ty("string")), LeafD("port", "a", Ty("int8"), "5")>>)   \* 31
 >>
 NMenu == Len(Menu)
 TopB == {22}
@@ -58,12 +65,12 @@ RType(ty, mod) ==
     [] OTHER -> "type " \o ty.b \o "; "
 RECURSIVE RNode(_), RNodes(_, _)
 RNode(sn) ==
-  CASE sn.k = "leaf" -> "leaf " \o sn.n \o " { " \o RType(sn.ty, sn.mod) \o "} "
+  CASE sn.k = "leaf" -> "leaf " \o sn.n \o " { " \o RType(sn.ty, sn.mod) \o (IF sn.dflt # "" THEN "default " \o sn.dflt \o "; " ELSE "") \o "} "
     [] sn.k = "ll" -> "leaf-list " \o sn.n \o " { " \o RType(sn.ty, sn.mod)
                       \o (IF sn.user THEN "ordered-by user; " ELSE "") \o "} "
     [] sn.k = "cont" -> "container " \o sn.n \o " { " \o (IF sn.pres THEN "presence \"p\"; " ELSE "") \o RNodes(sn.kids, 1) \o "} "
     [] sn.k = "list" -> "list " \o sn.n \o " { key " \o sn.key \o "; " \o (IF sn.user THEN "ordered-by user; " ELSE "")
-                        \o RNodes(sn.kids, 1) \o "} "
+                        \o (IF sn.uniq # "" THEN "unique \"" \o sn.uniq \o "\"; " ELSE "") \o RNodes(sn.kids, 1) \o "} "
 RNodes(kids, i) == IF i > Len(kids) THEN "" ELSE RNode(kids[i]) \o RNodes(kids, i + 1)
 OfMod(kids, mod) == SelectSeq(kids, LAMBDA x : x.mod = mod)
 YangA(S) == "module a { namespace \"urn:a\"; prefix a; identity base-id; identity loc-id { base base-id; } "
@@ -103,7 +110,12 @@ ValsOf(ty, mod, wide) ==
     [] b = "boolean" -> <<"true", "false">>
     [] b = "enumeration" -> ty.en
     [] b = "identityref" -> IF mod = "a" THEN <<"loc-id", "b:for-id">> ELSE <<"for-id", "a:loc-id">>
-KeyVals(ty) == IF ty.b = "string" THEN <<"kb", "ka", "k {22}{7F}c">> ELSE IF ty.b = "int8" THEN <<"-3", "2">> ELSE <<"7", "4294967295">>
+KeyVals(ty, mod) == CASE ty.b = "string" -> <<"kb", "ka", "k {22}{7F}c">>
+                      [] ty.b = "int8" -> <<"-3", "2">>
+                      [] ty.b = "identityref" -> IF mod = "a" THEN <<"loc-id", "b:for-id">> ELSE <<"for-id", "a:loc-id">>
+                      [] ty.b = "decimal64" -> <<"1.5", "-0.001", "2.0">>
+                      [] ty.b = "boolean" -> <<"true", "false">>
+                      [] OTHER -> <<"7", "4294967295">>
 
 \* ----------------------------------------------------------- trees of a schema
 \* sequences of length 1..2 over a pool (user-ordered: both orders; else one order per pair)
@@ -130,15 +142,16 @@ TreesOf(sn, wide) ==
              all == KidSeqs(others, 1, FALSE)
              full == {x \in all : \A y \in all : Len(y) <= Len(x)}
              some == {<< >>} \cup {CHOOSE x \in full : TRUE}
-             rests == IF wide THEN all ELSE some
+             rests == IF wide \/ sn.uniq # "" THEN all ELSE some
+             firsts == IF sn.uniq # "" THEN all ELSE some
              entry(kv, r) == N(kv, << >>, <<N(sn.key, <<kv>>, << >>)>> \o r)
-             pool == IF wide THEN KeyVals(keyleaf.ty) ELSE SubSeq(KeyVals(keyleaf.ty), 1, 2)
+             pool == IF wide THEN KeyVals(keyleaf.ty, keyleaf.mod) ELSE SubSeq(KeyVals(keyleaf.ty, keyleaf.mod), 1, 2)
              one == {<<entry(pool[i], r)>> : i \in 1..Len(pool), r \in rests}
              \* two entries: both orders if user-ordered; the first is the bare key or a full entry
              two == {<<entry(pool[p[1]], r1), entry(pool[p[2]], r2)>> :
                        p \in {q \in (1..Len(pool)) \X (1..Len(pool)) : IF sn.user THEN q[1] # q[2] ELSE q[1] < q[2]},
-                       r1 \in some, r2 \in rests}
-         IN {N(sn.n, << >>, es) : es \in one \cup two}
+                       r1 \in firsts, r2 \in rests}
+         IN {N(sn.n, << >>, es) : es \in {x \in one \cup two : UniqueOK(sn, x)}}
 Trees(S, wide) == {N("root", << >>, ks) : ks \in KidSeqs(Schema(S).kids, 1, wide)}
 \* the trees of a schema in which every menu item is present (used for mutants)
 ItemCount(t) == LET cs == {i \in 1..Len(t.kids) : t.kids[i].n = "c"} IN
@@ -159,7 +172,8 @@ AltScalars == {JNum("1.7"), JNum("5"), JNum("-1"), JNum("300"), JNum("1844674407
                JNum("5.0"), JNum("-0"), JNum("0.0"), JNum("-0.0"), JNum("0e0"), JNum("1E0"), JNum("5e-1"), JNum("1e400"), JNum("12e0"),
                JNum("007"), JNum("+5"), JNum(".5"), JNum("5."), JNum("1e"), JNum("0x10"), JNum("-"),
                JStr("x"), JStr("5"), JStr("1.7"), JStr("1e2"), JStr("100.0"), JStr("+5"), JStr("007"), JStr("-0"),
-               JStr("zz:loc-id"), JStr("a:loc-id"), JTrue, JFalse, JNull, JArr(<< >>, TRUE), JObj(<< >>),
+               JStr("1.50"), JStr("2"), JStr("true"), JStr("TRUE"),
+               JStr("zz:loc-id"), JStr("a:loc-id"), JStr("b:for-id"), JStr("loc-id"), JStr("for-id"), JTrue, JFalse, JNull, JArr(<< >>, TRUE), JObj(<< >>),
                JArr(<<JNum("5")>>, TRUE), JArr(<<JNull>>, TRUE), JStr("")}
 RECURSIVE DocMut(_)
 DocMut(v) ==
@@ -181,7 +195,8 @@ JMutants(doc) == {JToks(d) : d \in DocMut(doc)} \cup TokDrops(JToks(doc))
 
 \* the same for XML: text replaced, an element removed / repeated / repeated with another text,
 \* an unknown element added, a tag dropped, an end tag renamed
-AltTexts == {"1.7", "5", "-1", "300", "x", "", "true", "zz:loc-id", "18446744073709551616", "1e2", "100.0"}
+AltTexts == {"1.7", "5", "-1", "300", "x", "", "true", "zz:loc-id", "18446744073709551616", "1e2", "100.0",
+             "a:loc-id", "b:for-id", "loc-id", "for-id", "+5", "007", "1.50", "2", "TRUE", "false"}
 RECURSIVE ElMut(_)
 ElMut(e) ==
   (IF e.kids = << >> THEN {[e EXCEPT !.text = x, !.q = NoQ] : x \in AltTexts \ {e.text}}
